@@ -622,6 +622,16 @@ func TestVerif(t *testing.T) {
 					everAccepted = append(everAccepted, Warm{Cfg: ac, User: cr.User, Pass: cr.Pass})
 				}
 			}
+			// field-length boundaries (ULEN x PLEN grid, NMETHODS, domain lengths) on one configuration of each kind
+			if ci == 0 || ci == 3 || ci == 5 || ci == 6 || c.Thorough() {
+				var vc *socksrun.Cred
+				if rp := rightPairs(ac); ac.Enabled && len(rp) > 0 {
+					vc = &rp[0]
+				}
+				for _, bs := range socksrun.BoundarySessions(vc, ac.Enabled) {
+					fixedCase(bs)
+				}
+			}
 			for i := 0; i < per; i++ {
 				s := socksrun.Gen(r, socksrun.GenOpts{Creds: creds, Valid: validFor(ac, creds), AuthHeavy: ac.Enabled, NoAuth: !ac.Enabled})
 				cases = append(cases, Case{Session: s, Plan: socksrun.PickPlan(r, s), UDP: socksrun.PickBackend(r), ICMP: socksrun.PickBackend(r)})
